@@ -773,8 +773,30 @@ fn set_checks(sim: &Sim, obs: &Obs, r: &mut ProbeResult, rng: &mut Prng, forked:
             }
         }
     }
-    // ---- whitelist query
-    for a in names.users.iter() {
+    // ---- whitelist query: for every user, and for every string that occurs as a buyer component in the
+    // raw whitelist index and happens to be a valid address (an index sentinel must not be one)
+    let mut askers: Vec<String> = names.users.clone();
+    {
+        let ns = b"listing__whitelisted__buyer";
+        let mut head = vec![0u8, ns.len() as u8];
+        head.extend_from_slice(ns);
+        let st = crate::chain::CStore::new(&sim.chain, &names.market);
+        for (k, _) in cosmwasm_std::Storage::range(&st, None, None, cosmwasm_std::Order::Ascending) {
+            if k.len() > head.len() + 2 && k.starts_with(&head) {
+                let l = ((k[head.len()] as usize) << 8) | k[head.len() + 1] as usize;
+                let from = head.len() + 2;
+                if from + l <= k.len() {
+                    if let Ok(sx) = std::str::from_utf8(&k[from..from + l]) {
+                        if spec::valid_addr(sx) && !askers.iter().any(|a| a == sx) {
+                            askers.push(sx.to_string());
+                            r.hit("whitelist_query_for_index_sentinel");
+                        }
+                    }
+                }
+            }
+        }
+    }
+    for a in askers.iter() {
         let res = q(sim, &json!({"get_listings_by_whitelist": {"owner": a}}));
         r.case(&[b"whitelist", &[res.is_ok() as u8]]);
         match res {
